@@ -839,6 +839,53 @@ func b2(w *World, r *Report) {
 				}
 			}
 		}
+		// variant: a helper finds the stake and hands back both the payload's hash and the
+		// stake found by it: DelStake(h) and s with (h, s) = helper(…), where on every
+		// successful return of the helper s is FindStake(h)#1 on the same delegatee
+		if del != nil && find == nil && !ok {
+			_, da := callRecvArgs(del.Common())
+			dr, _ := callRecvArgs(del.Common())
+			if len(da) == 1 {
+				if hx, isEx := stripConv(da[0]).(*ssa.Extract); isEx {
+					if hc, isC := hx.Tuple.(*ssa.Call); isC {
+						if cal := hc.Common().StaticCallee(); cal != nil && w.InModule(cal) && cal.Blocks != nil && len(cal.Params) == len(hc.Common().Args) {
+							env := map[*ssa.Parameter]string{}
+							for j, p := range cal.Params {
+								env[p] = w.Canon(hc.Common().Args[j])
+							}
+							w.inlineEnv = append(w.inlineEnv, env)
+							sIdx := -1
+							nOK := 0
+							consistent := true
+							for _, b := range cal.Blocks {
+								rt, isR := lastInstr(b).(*ssa.Return)
+								if !isR || b == cal.Recover || w.errState(rt) == triNonNil {
+									continue
+								}
+								nOK++
+								h := w.Canon(retResult(rt, hx.Index))
+								found := -1
+								for j := range rt.Results {
+									if j != hx.Index && w.Canon(retResult(rt, j)) == w.Canon(dr)+".FindStake("+h+")#1" {
+										found = j
+									}
+								}
+								if !strings.HasSuffix(h, "TrxPayloadUnstaking).TxHash") || found < 0 || (sIdx >= 0 && sIdx != found) {
+									consistent = false
+								}
+								sIdx = found
+							}
+							w.inlineEnv = w.inlineEnv[:len(w.inlineEnv)-1]
+							if consistent && nOK > 0 && sIdx >= 0 {
+								if sv := extractOf(hc, sIdx); sv != nil {
+									ok, why = sunk(eu, sv, del)
+								}
+							}
+						}
+					}
+				}
+			}
+		}
 		if del != nil && find != nil {
 			_, da := callRecvArgs(del.Common())
 			_, fa := callRecvArgs(find.Common())
